@@ -54,3 +54,52 @@ def refinement(chk: Check):
 def run_for(chk: Check):
     tlapm_check(chk)
     refinement(chk)
+    hourly_root(chk)
+
+
+def _hourly_root_case(case):
+    """GHE.size with the HOURLY method on a real field object: unless clamped, the returned height is a root of the HOURLY excess."""
+    import contextlib  # noqa: PLC0415
+    import io  # noqa: PLC0415
+    import warnings  # noqa: PLC0415
+
+    from .core import import_repo  # noqa: PLC0415
+    from .p_numeric import _mk_real_ghe  # noqa: PLC0415
+
+    import_repo()
+    from ghedesigner.enums import TimestepType  # noqa: PLC0415
+
+    n1, n2, amp = case
+    with warnings.catch_warnings(), contextlib.redirect_stdout(io.StringIO()):
+        warnings.simplefilter("ignore")
+        try:
+            g = _mk_real_ghe(n1, n2, 100.0, soil_k=2.2, months=12, amp=amp)
+            g.size(TimestepType.HOURLY)
+            h = float(g.bhe.b.H)
+            reported = g.cost(max(g.hp_eft), min(g.hp_eft))
+            mx, mn = g.simulate(TimestepType.HOURLY)
+            excess = g.cost(mx, mn)
+            # is the HOURLY excess changing sign around the returned height?
+            lo_h, hi_h = g.sim_params.min_height, g.sim_params.max_height
+            return {"H": h, "excess": float(excess), "reported": float(reported), "clamped": not (lo_h + 1e-6 < h < hi_h - 1e-6), "steps": len(g.hp_eft)}
+        except Exception as ex:  # noqa: BLE001
+            return {"error": f"{type(ex).__name__}: {ex}"}
+
+
+def hourly_root(chk: Check):
+    from .core import parallel_map  # noqa: PLC0415
+
+    cases = [(2, 2, 2600.0), (1, 2, 2200.0)] if tier() == "quick" else [(2, 2, 2600.0), (1, 2, 2200.0), (1, 2, 3000.0), (2, 2, 3400.0), (3, 3, 2400.0), (2, 3, 2900.0), (2, 2, 5200.0)]
+    n = 0
+    for c, r in zip(cases, parallel_map(_hourly_root_case, cases)):
+        if "error" in r:
+            chk.violation(f"C05: GHE.size(HOURLY) on a {c[0]}x{c[1]} field raised {r['error']}", {"case": c})
+            continue
+        n += 1
+        if r["steps"] != 8760:
+            chk.violation(f"C05: GHE.size(HOURLY) left {r['steps']} temperatures, not the hourly year", {"case": c, "result": r})
+        if not r["clamped"] and abs(r["excess"]) > 1e-3:
+            chk.violation(f"C05: GHE.size(HOURLY) on a {c[0]}x{c[1]} field returns H = {r['H']:.4f} m where the HOURLY excess is {r['excess']:.4g} K: not a root of the "
+                          "objective of the requested time-step method", {"case": c, "result": r})
+    chk.note("hourly_sizing_roots_checked", n)
+    chk.traces += n
